@@ -183,6 +183,46 @@ rule("D6.parse_i64_str",
      "shim_parse_i64 ( $recv )",
      "str::parse::<i64>")
 
+rule("D6.rsplit_once_char",
+     "$recv . rsplit_once ( $c:char )",
+     "shim_rsplit_once_char ( $recv , $c )",
+     "str::rsplit_once at the last occurrence of a char")
+
+rule("D6.rsplit_once_lit_string",
+     "$recv . rsplit_once ( $l:str )",
+     "shim_rsplit_once_str ( $recv . as_str ( ) , $l )",
+     "String -> str::rsplit_once at the last occurrence of a literal")
+
+rule("D6.string_from",
+     "String :: from ( $(e) )",
+     "shim_string_from ( $(e) )",
+     "<String as From<&str>>::from (vstd has no spec and its signature cannot be named in assume_specification)")
+
+rule("D6.match_indices_gt_lt",
+     "$recv . match_indices ( & [ '>' , '<' ] )",
+     "shim_match_indices_gt_lt ( $recv )",
+     "str::match_indices(&['>','<']) collected: (byte index, matched 1-char str) of every '>' or '<', in order")
+
+rule("D6.str_get_range",
+     "$recv . get ( $(a) .. $(b) )",
+     "shim_str_get ( $recv , $(a) , $(b) )",
+     "str::get(a..b): Some(sub-slice) iff a <= b <= len and both are char boundaries")
+
+rule("D13.ref_wild_pat",
+     "( & _ , _ ) =>",
+     "( _ , _ ) =>",
+     "`&_` wildcard pattern -> `_` (Verus has no ref patterns; both match everything, bind nothing)")
+
+rule("D6.ne_self_field_string",
+     "$recv != self . $f:id",
+     "shim_str_ne_string ( $recv , & self . $f )",
+     "<str as PartialEq<String>>::ne (vstd specifies only &str == &str)")
+
+rule("D6.substr_to_string",
+     "$recv [ $(a) .. $(b) ] . to_string ( )",
+     "shim_substr_to_string ( $recv , $(a) , $(b) )",
+     "s[a..b].to_string(): names the temporary slice so that its contract can be used")
+
 rule("D6.take_digits",
      "$recv . chars ( ) . take_while ( char :: is_ascii_digit ) . collect ( )",
      "shim_take_ascii_digits ( $recv )",
